@@ -33,6 +33,10 @@ CLAIMED = {
             'multigraphs with concrete multi-vertex edge geometries; node list, edge permission, weight sum == minimum and geometry continuity asserted per path; '
             'every query is issued twice on the same network object.',
             'DESIGN.md#c07', 'same bounds as C06; source != target', ''),
+    'C08': ('Bounded model checking of the grid index (cell mapping, crossed-cell enumeration with the straddle test, registration, point / segment / track / neighbourhood queries, '
+            'ground-distance conversion) on catalogue grids with a symbolic feature, query and distance anywhere in the closed extent: registration and segment queries are proved complete with a free curve '
+            'parameter t in the negated query (no cell containing S(t) is missed), point queries proved to read the containing cell, neighbourhood queries proved to return the cell of every point within d.',
+            'DESIGN.md#c08', 'grids: 3x2 unit cells margin 0, 4x2 cells of 0.5x4 (quick) + 4x4 of 2x1 with margin, non-dividing resolution, single cell (thorough); default resolution for point queries in corner windows', ''),
     'C09': ('Bounded model checking of HMM.estimate (Viterbi forward recursion, back-pointers, argmin reconstruction) on fully symbolic time-dependent observation / transition '
             'tables with per-epoch candidate counts: on every path the decoded sequence is proved optimal against all enumerated candidate sequences and hmm_cost at the last epoch equal to the optimum; '
             'likelihood mode (incl. exact zeros) with math.log as a monotone uninterpreted function, linked to the log-form run of the same model.',
